@@ -38,9 +38,20 @@
                                 district event has strictly fewer keys (`district_smaller`); line 3 never adds keys and fires
                                 at most once per level.
     * `idstar_depth_sw`         on a district event with k keys, `2k + 1` units suffice
+    * `idstar_sound_fragment`   SOUNDNESS ON A NAMED FRAGMENT (`InFragment`, decidable by `inFragmentB`): events all of whose
+                                keys carry one subscript set, with unstarred values and subscripts — the interventional
+                                queries P(y_x), conjunctions allowed.  For every functional SCM compatible with the graph
+                                (normalised noise, bounded values) the returned expression, under the reading of the property
+                                (`cden`, Lemmas/CfDen.lean), EQUALS P(event); `idstar_answers_fragment`: inside the fragment ID*
+                                always answers (never 'unidentifiable').  Proof (Lemmas/CfProb, CfLocal, CfDen, CfFragA–C): the
+                                noise space is a product measure (independence of events over disjoint coordinates,
+                                marginalisation); the joint distribution of a parent-closed set of variables in one world is
+                                the mass of "local mechanism" events (so the world only matters through what it forces); the
+                                districts of the counterfactual graph share no noise (c-component factorisation, line 6);
+                                line 9 and the outer Sum are marginalisations; induction over the recursion.
     * vocabulary (C06 part): Props/C06Cf.lean
 
-  -- OPEN (stated in full, NOT proved; on the current tree the first one is FALSE — F10, see known_findings.jsonl):
+  -- OPEN (stated in full, NOT proved; on the current tree the first one is FALSE outside the fragment — F10, see known_findings.jsonl):
   --   theorem idstar_sound : idStar ordf dordf G ev = .ok e → e ≠ .zero → M.Compatible G → EventWF M ev → ν.Distinct →
   --       den M ν ev e = probEvent M ν ev
   --     (`den` = the reading of the property: a free outcome variable `V` of a leaf takes the event's value of `V`, a subscript
@@ -55,6 +66,9 @@ import Y0.Lemmas.CfFscm
 import Y0.Lemmas.CfIdStar
 import Y0.Lemmas.CfNsi
 import Y0.Lemmas.CfTermC
+import Y0.Lemmas.CfFragC
+import Mathlib.Tactic.NormNum
+import Mathlib.Algebra.Order.Field.Rat
 
 namespace Y0.Cf
 open Fscm
@@ -255,6 +269,94 @@ theorem idstar_outcomes {ordf : List World → List World} (hord : PermOrder ord
 example (rev : Bool) (rot : Nat) : PermOrder (orderWorlds rev rot) := permOrder_orderWorlds rev rot
 example (rev : Bool) : SubsetOrder (orderDistrict rev) := subsetOrder_orderDistrict rev
 
+/-! ## 3c. soundness on a named fragment -/
+
+/-- **The fragment** `InFragment G ev`: the event is a dict over variables of `G`; all its keys carry ONE subscript set `w`
+(possibly empty: all factual); every value is the UNSTARRED value of its own variable and every subscript is unstarred —
+the interventional queries `P(y_x)` (`x`, `y` the unstarred values), conjunctions allowed.  None of the F10 defect patterns
+(a starred symbol turned into an unstarred subscript, two copies of one variable) can occur inside it. -/
+def InFragment (G : MG Name) (ev : Event) : Prop := ∃ w, Frag G w ev
+
+/-- the fragment is decidable: an executable test -/
+def inFragmentB (G : MG Name) (ev : Event) : Bool :=
+  match ev with
+  | [] => true
+  | p :: _ =>
+    decide (ev.keys.Nodup) &&
+    ev.all (fun q => decide (q.2 = ⟨q.1.name, false⟩) && decide (q.1.star = none) && !q.1.isIv &&
+      decide (q.1.name ∈ G.nodes) && decide (q.1.ivs = p.1.ivs)) &&
+    p.1.ivs.all (fun i => !i.star)
+
+theorem inFragmentB_sound (ev : Event) (h : inFragmentB G ev = true) : InFragment G ev := by
+  cases ev with
+  | nil =>
+    refine ⟨[], ⟨⟨?_, ?_⟩, ?_⟩, ?_, ?_, ?_⟩
+    · simp [Event.keys]
+    · intro p hp; cases hp
+    · intro k hk; simp [Event.keys] at hk
+    · intro p hp; cases hp
+    · intro k hk; simp [Event.keys] at hk
+    · intro i hi; cases hi
+  | cons p ps =>
+    simp only [inFragmentB, Bool.and_eq_true, decide_eq_true_eq, List.all_eq_true, Bool.not_eq_eq_eq_not, Bool.not_true] at h
+    obtain ⟨⟨hnd, hall⟩, hw⟩ := h
+    have hwU : ∀ i ∈ p.1.ivs, i.star = false := hw
+    refine ⟨p.1.ivs, ⟨⟨hnd, ?_⟩, ?_⟩, ?_, ?_, hwU⟩
+    · intro q hq
+      obtain ⟨⟨⟨⟨hv, _⟩, _⟩, _⟩, _⟩ := hall q hq
+      rw [hv]
+    · intro k hk
+      obtain ⟨v, hv⟩ := (mem_keys_iff _ k).1 hk
+      obtain ⟨⟨⟨⟨_, hs⟩, hiv⟩, hin⟩, hivs⟩ := hall (k, v) hv
+      simp only at hs hiv hin hivs
+      exact ⟨hs, hiv, hin, by rw [hivs]; exact consistent_of_unst _ hwU⟩
+    · intro q hq
+      exact (hall q hq).1.1.1.1
+    · intro k hk
+      obtain ⟨v, hv⟩ := (mem_keys_iff _ k).1 hk
+      obtain ⟨⟨⟨⟨_, hs⟩, hiv⟩, _⟩, hivs⟩ := hall (k, v) hv
+      simp only at hs hiv hivs
+      rcases k with ⟨n, s, i, vs⟩
+      simp only at hs hiv hivs
+      subst hs hiv hivs
+      rfl
+
+/-- **ID\* is sound on the fragment.**  Let `M` be any functional SCM compatible with the (well-formed, loop-free) graph `G`,
+with normalised noise, `dom` a bound on the values every mechanism returns, `ν` any base values.  If `ev` is in the fragment and
+`id_star` returns the expression `e`, then `e` — read with the event's own values for its outcome variables (`ν X false`),
+a `Sum` binding the summed variable both as an outcome and in unstarred subscripts — EQUALS the probability of the event in
+`M`.  For every iteration order of the worlds and of the district nodes. -/
+theorem idstar_sound_fragment (M : Model) (ν : BaseValues) (dom : Name → Nat) (hM : Compatible M G) (hnorm : M.Normalised)
+    (hdom : ∀ v ps us, M.f v ps us < dom v) (hG : G.WF) (hdl : ∀ e ∈ G.di, e.1 ≠ e.2) (hbl : ∀ e ∈ G.bi, e.1 ≠ e.2)
+    {ordf : List World → List World} (hord : PermOrder ordf) {dordf : List Var → List Var} (hdo : PermDistrict dordf)
+    (ev : Event) (hfr : InFragment G ev) (e : Expr) (h : idStar ordf dordf G ev = .ok e) :
+    cden M ν dom e (fun n => ν n false) = probEvent M ν ev := by
+  obtain ⟨w, hw⟩ := hfr
+  have := idStarFuel_sound_frag M ν dom hM (fun pmf hp => (hnorm pmf hp).2) hdom hG hdl hbl hord hdo _ w ev e hw h
+    (fun n => ν n false)
+  rw [this]
+  congr 1
+  funext n b
+  cases b <;> rfl
+
+/-- … and inside the fragment ID* always answers (on an acyclic graph): it never refuses and never fails -/
+theorem idstar_answers_fragment (hG : G.WF) (hA : G.Acyclic) (hdl : ∀ e ∈ G.di, e.1 ≠ e.2) (hbl : ∀ e ∈ G.bi, e.1 ≠ e.2)
+    {ordf : List World → List World} (hord : PermOrder ordf) {dordf : List Var → List Var} (hdo : PermDistrict dordf)
+    (ev : Event) (hfr : InFragment G ev) : ∃ e, idStar ordf dordf G ev = .ok e := by
+  obtain ⟨w, hw⟩ := hfr
+  rcases idstar_outcomes G hord hdo.subset hG hA hdl hbl ev hw.good with h | h
+  · exact h
+  · exact absurd h (idStarFuel_not_unid_frag hG hdl hbl hord hdo _ w ev hw)
+
+/-- the orders used by the correspondence check are permutations of the district -/
+theorem permDistrict_orderDistrict (rev : Bool) : PermDistrict (orderDistrict rev) := by
+  intro d
+  unfold orderDistrict
+  simp only
+  split
+  · exact (List.reverse_perm _).trans (perm_sortBy' _ _)
+  · exact perm_sortBy' _ _
+
 /-! ## 4. non-vacuity: concrete runs of the model (kernel-evaluated) -/
 
 namespace Example07
@@ -287,6 +389,80 @@ example : GoodEv gBA [(A_b, ⟨0, false⟩), (B, ⟨1, false⟩)] := by
   rcases hk with rfl | rfl
   · exact ⟨rfl, rfl, by decide, by intro i hi j hj _; simp [A_b] at hi hj; rw [hi, hj]⟩
   · exact ⟨rfl, rfl, by decide, by intro i hi; simp [B, Var.plain] at hi⟩
+/-- the fragment is not empty: `P(A_b = a)` and `P(A = a, B = b)` on `B → A` -/
+example : inFragmentB gBA [(A_b, ⟨0, false⟩)] = true := by decide
+example : inFragmentB gBA [(A, ⟨0, false⟩), (B, ⟨1, false⟩)] = true := by decide
+/-- … and the F10 witness is outside it (a starred value) -/
+example : inFragmentB gBA [(B, ⟨1, true⟩), (A, ⟨0, false⟩)] = false := by decide
+
+/-- the semantic hypotheses of `idstar_sound_fragment` are satisfiable: a functional SCM compatible with `B → A` with normalised
+noise and mechanisms bounded by `dom = 2` -/
+def mBA2 : Model where
+  order := [1, 0]
+  noise := [[1/3, 2/3], [1/4, 3/4]]
+  pa := fun v => if v = 0 then [1] else []
+  lat := fun v => if v = 0 then [1] else if v = 1 then [0] else []
+  f := fun v ps us => if v = 1 then us.getD 0 0 % 2 else (ps.getD 0 0 + us.getD 0 0) % 2
+
+example : ∀ v ps us, mBA2.f v ps us < 2 := by
+  intro v ps us
+  simp only [mBA2]
+  split <;> omega
+
+example : mBA2.Normalised := by
+  intro pmf hp
+  simp only [mBA2, List.mem_cons, List.not_mem_nil, or_false] at hp
+  rcases hp with rfl | rfl
+  · refine ⟨?_, by norm_num⟩
+    intro p hp
+    simp only [List.mem_cons, List.not_mem_nil, or_false] at hp
+    rcases hp with rfl | rfl <;> norm_num
+  · refine ⟨?_, by norm_num⟩
+    intro p hp
+    simp only [List.mem_cons, List.not_mem_nil, or_false] at hp
+    rcases hp with rfl | rfl <;> norm_num
+
+example : Compatible mBA2 gBA := by
+  refine ⟨by decide, by decide, ?_, ?_, ?_⟩
+  · intro v p hp
+    by_cases hv : v = 0
+    · subst hv
+      simp only [mBA2, if_true, List.mem_singleton] at hp
+      subst hp
+      decide
+    · simp [mBA2, hv] at hp
+  · intro l₁ v l₂ h p hp
+    by_cases hv : v = 0
+    · subst hv
+      simp only [mBA2, if_true, List.mem_singleton] at hp
+      subst hp
+      have h' : [1, 0] = l₁ ++ 0 :: l₂ := h
+      rcases l₁ with _ | ⟨x, l₁⟩
+      · simp at h'
+      · simp only [List.cons_append, List.cons.injEq] at h'
+        rw [← h'.1]; simp
+    · simp [mBA2, hv] at hp
+  · intro v w hvw hsh
+    obtain ⟨j, hj1, hj2⟩ := hsh
+    exfalso
+    by_cases hv : v = 0
+    · subst hv
+      simp only [mBA2, if_true, List.mem_singleton] at hj1
+      subst hj1
+      by_cases hw : w = 0
+      · exact hvw hw.symm
+      · by_cases hw1 : w = 1 <;> simp [mBA2, hw, hw1] at hj2
+    · by_cases hv1 : v = 1
+      · subst hv1
+        simp only [mBA2] at hj1
+        simp at hj1
+        subst hj1
+        by_cases hw : w = 0
+        · subst hw; simp [mBA2] at hj2
+        · by_cases hw1 : w = 1
+          · exact hvw hw1.symm
+          · simp [mBA2, hw, hw1] at hj2
+      · simp [mBA2, hv, hv1] at hj1
 end Example07
 
 end Y0.Cf
